@@ -56,7 +56,8 @@ def c08_cases():
         'queued': st.integers(0, 8),
         'done_before': st.integers(0, 3),
         'action': st.sampled_from(['terminate', 'terminate', 'terminate2',
-                                   'del_pool', 'terminate_job', 'sigterm']),
+                                   'del_pool', 'terminate_job', 'sigterm',
+                                   'hardlimit']),
         # several idle workers are told to exit shortly before the call, so that
         # the supervisor is busy replacing them (with a slow on_process_up
         # callback) when terminate() arrives
@@ -85,20 +86,26 @@ def execute_c08(case):
         steps.append(['wait', t, 30])
     running = case['running'][:procs]
     for i, kind in enumerate(running):
+        # action hardlimit: the termination signal comes from the time-limit
+        # scanner (TERM, then KILL 0.1 s later if the worker is still there)
+        o = {'hard': 1} if case['action'] == 'hardlimit' and i == 0 \
+            and threads else {}
         if kind == 'sleep':
             steps.append(['apply', 'r%d' % i, [['mark', 'r%d' % i], ['sleep', 40]],
-                          {}])
+                          o])
         else:
             steps.append(['apply', 'r%d' % i, [['mark', 'r%d' % i],
-                                               ['stubborn', 2.5], ['ret', 1]], {}])
+                                               ['stubborn', 2.5], ['ret', 1]], o])
     for i in range(len(running)):
         steps.append(['wait_mark', 'r%d' % i, 30])
     queued = case['queued']
     for i in range(queued):
         steps.append(['apply', 'q%d' % i, [['sleep', 0.05], ['ret', i]], {}])
     action = case['action']
-    if action in ('terminate_job', 'sigterm') and not running:
+    if action in ('terminate_job', 'sigterm', 'hardlimit') and not running:
         action = 'terminate'
+    if action == 'hardlimit' and not threads:
+        action = 'terminate'    # nobody runs the time-limit scanner there
     # let freshly started workers reach their idle state (blocked in the read of
     # the task queue, holding its read lock)
     steps.append(['sleep', 0.6])
@@ -126,6 +133,9 @@ def execute_c08(case):
                   ['terminate']]
     elif action == 'sigterm':
         steps += [['sigterm_worker', 'r0'], ['sleep', 6.0], ['snapshot', 'after'],
+                  ['terminate']]
+    elif action == 'hardlimit':
+        steps += [['wait', 'r0', 30], ['sleep', 3.0], ['snapshot', 'after'],
                   ['terminate']]
     scen = {'pool': {'procs': procs, 'threads': threads, 'lost': 0.5,
                      'slow_up': 0.5 if mass else 0,
@@ -236,6 +246,29 @@ def execute_c08(case):
         if later:
             return bad('C08/took-further-jobs', 'worker %d started %r after the '
                        'termination signal' % (pid, later), nontrivial, labels)
+    if action == 'hardlimit':
+        rec = obs['jobs'].get('r0', {})
+        out = rec.get('outcome') or {}
+        if not rec.get('ready') or out.get('type') != 'TimeLimitExceeded':
+            return bad('C08/limit-not-enforced', 'job r0 (hard limit 1 s): %r' % (
+                out,), nontrivial, labels)
+        mine = [e for e in _exec_by(obs, 'start') if e[1] == 'r0']
+        if not mine or not rec.get('cb'):
+            return inconclusive('victim pid / failure time unknown', labels)
+        pid, t_fail = int(mine[0][2]), float(rec['cb'][0][1])
+        after = obs['snapshots'].get('after', {})
+        if pid in after.get('pids', []):
+            return bad('C08/signalled-worker-stays', 'worker %d still in the pool '
+                       '3 s after its job hit the hard limit' % pid, nontrivial, labels)
+        # the scanner fails the job first and signals the worker next; a task
+        # this worker starts more than 1.5 s after that was taken by a worker
+        # that had been told to go (the KILL follows the TERM by 0.1 s).  The
+        # exit callback is not demanded here: 0.1 s is not always enough for it
+        later = [e for e in _exec_by(obs, 'start')
+                 if int(e[2]) == pid and float(e[3]) > t_fail + 1.5]
+        if later:
+            return bad('C08/took-further-jobs', 'worker %d started %r after the '
+                       'hard limit of its job' % (pid, later), nontrivial, labels)
     return ok(nontrivial, labels)
 
 
@@ -260,7 +293,10 @@ def c07_cases():
         'maxtasks': st.sampled_from([None, None, 200]),
         'jobs': st.lists(_JOB.map(list), min_size=0, max_size=10),
         'close_after': st.sampled_from([0, 0, 0.05, 0.3, 'all']),
-        'replace': st.booleans(),
+        # True: an idle worker is killed and replaced before any job is offered;
+        # 'race': close() is called while the supervisor is replacing it (the
+        # dead worker off the list, the new one - slow to build - not yet on it)
+        'replace': st.sampled_from([False, True, True, 'race']),
     })
 
 
@@ -269,7 +305,11 @@ def execute_c07(case):
     steps = []
     expect = {}
     work = 0.0
-    if case.get('replace') and threads:
+    race = case.get('replace') == 'race' and threads
+    if race:
+        steps += [['sleep', 1.6], ['kill_idle', 15],
+                  ['wait_short', case['procs'], 20]]
+    elif case.get('replace') and threads:
         # a worker is killed while idle and replaced before any job is offered
         steps += [['sleep', 0.3], ['kill_idle', 15], ['sleep', 0.2],
                   ['wait_size', case['procs'], 20]]
@@ -302,10 +342,13 @@ def execute_c07(case):
         if kind in ('imap', 'imap_unordered'):
             steps.append(['drain', tag, 5])
     scen = {'pool': {'procs': case['procs'], 'threads': threads,
-                     'maxtasks': case['maxtasks']},
+                     'maxtasks': case['maxtasks'],
+                     'slow_create': 1.5 if race else 0},
             'steps': steps, 'watch': 90, 'settle': 0.5}
     obs = run_scenario(scen)
     labels = ['threads=%s' % threads, 'close_after=%s' % case['close_after']]
+    if race:
+        labels.append('close_during_replacement')
     nontrivial = any(k != 'apply' for k, _ in expect.values())
     t = _harness_trouble(obs, 'C07')
     if t:
@@ -914,6 +957,10 @@ def c02_cases():
         # a job the same pool has served before (the feeder/handlers are loops
         # that live across jobs)
         'pre': st.sampled_from([None, 'apply', 'map', 'imap']),
+        # the call is made while the supervisor is replacing *all* workers
+        # (told to exit while idle; replacements slow to build): the list of
+        # workers is empty at that moment
+        'replacing': st.sampled_from([False, False, False, True]),
     })
 
 
@@ -929,6 +976,10 @@ def execute_c02(case):
         steps += [['map', 'p', [['retx', 0]], 7, 2, 'map'], ['wait', 'p', 60]]
     elif pre == 'imap':
         steps += [['map', 'p', [['retx', 0]], 3, 1, 'imap'], ['drain', 'p', 60]]
+    replacing = bool(case.get('replacing'))
+    if replacing:
+        steps += [['sleep', 1.6], ['kill_idle_n', case['procs'], 15],
+                  ['wait_short', 1, 20]]
     if entry == 'apply':
         x_bad = bool(badset)
         steps.append(['apply_sync', 'j', [['raise', case['exc'], [1, 'boom']]]
@@ -940,10 +991,13 @@ def execute_c02(case):
     else:
         steps += [['map', 'j', script, n, cs or 1, entry], ['drain', 'j', 60]]
     steps.append(['terminate'])
-    scen = {'pool': {'procs': case['procs']}, 'steps': steps, 'watch': 120,
-            'settle': 0}
+    scen = {'pool': {'procs': case['procs'],
+                     'slow_create': 0.7 if replacing else 0},
+            'steps': steps, 'watch': 120, 'settle': 0}
     obs = run_scenario(scen)
     labels = ['entry=' + entry]
+    if replacing:
+        labels.append('pool_empty_at_call')
     chunk = cs or 1
     nontrivial = bool(badset) or (n > chunk and n % chunk != 0) or n == 0
     t = _harness_trouble(obs, 'C02')
